@@ -792,10 +792,10 @@ func (r *runner) annotateBlock(kinds []string, reqs []*blockReq, note string) {
 			// the known stale-snapshot window: the change the view misses *was* relayed to the
 			// joiner, but ahead of the SESSION_STATE that then overwrote it
 			mark = " [observer joined during the block and was relayed a change ahead of its SESSION_STATE]"
-		} else if joiners[who] && v.Rule == "view-actions" && r.relayBefore(who, 103, 100) {
+		} else if joiners[who] && (v.Rule == "view-actions" || v.Rule == "joiner-state-mismatch" && strings.Contains(v.Detail, "entity actions")) && r.relayBefore(who, 103, 100) {
 			// the same window in the vikja module: snapshot of the actions, then enqueue
 			mark = " [observer joined during the block and was relayed a change ahead of its VIKJA_STATE]"
-		} else if joiners[who] && v.Rule == "view-assets" && r.relayBefore(who, 203, 200) {
+		} else if joiners[who] && (v.Rule == "view-assets" || v.Rule == "joiner-state-mismatch" && strings.Contains(v.Detail, "asset instances")) && r.relayBefore(who, 203, 200) {
 			mark = " [observer joined during the block and was relayed a change ahead of its ODAL_STATE]"
 		}
 		if len(v.Keys) > 0 && r.listOvertaken(reqs, who, v.Keys) {
